@@ -139,11 +139,12 @@ func init() {
 		Explanation: "Decides structural necessary conditions of longest-match-with-priority tables: DTX(accept-priority): in a DFA state the accepted rule is replaced only by a rule of strictly higher precedence, equal precedence with a different action is an error. FIELDCOV(checkpoint): backtracking checkpoints are shared only between transitions with the same target state and the same accepted action, and carry that action. " +
 			"CODEC(lexdfa): the writer's three cell classes (state, checkpoint k = -1-k, accept = -1-action shifted below the checkpoints) are produced under the right tests; Tables.Scan reads Backtrack[-1-cell] only for actionStart < cell < 0, computes actionStart-cell only for cell <= actionStart (also on the end-of-input transition), and prefers a recorded checkpoint over the invalid action. " +
 			"Not decided: subset construction, epsilon closure, symbol-class compression.",
-		Rules: []string{"DTX(accept-priority)", "FIELDCOV(checkpoint)", "CODEC(lexdfa)"},
+		Rules: []string{"DTX(accept-priority)", "FIELDCOV(checkpoint)", "CODEC(lexdfa)", "PAIR(checkpoint)"},
 		Run: func(c *Ctx) {
 			ruleACCEPTPRIO(c)
 			ruleCHECKPOINTKEY(c)
 			ruleLEXCODEC(c)
+			ruleCHECKPOINTPAIR(c)
 		},
 	})
 	register(&Property{
@@ -196,6 +197,7 @@ func init() {
 			rulePROGRESS(c)
 			ruleCHECKPOINTKEY(c)
 			ruleLEXCODEC(c)
+			ruleCHECKPOINTPAIR(c)
 		},
 	})
 }
